@@ -36,6 +36,7 @@ pub enum Post {
     None,
     C11,
     C12,
+    C20,
 }
 
 pub fn ev_has(e: &Events, k: &str) -> bool {
@@ -99,6 +100,22 @@ pub fn exec_hist<P: TP>(case: &Case, spec: &HistSpec, known: &BTreeSet<String>, 
         env.step = case.ops.len();
         match post {
             Post::None => Ok(()),
+            Post::C20 => {
+                if env.stopped_on_taint || w.a.drift != 0 {
+                    env.ev("c20_inject_skipped_tainted");
+                    return Ok(());
+                }
+                let n = case.ops.len().min(10);
+                let side: crate::env::Side<P, u64> = crate::env::Side {
+                    map: w.a.map.clone(),
+                    model: w.a.model.clone(),
+                    canonical: w.a.canonical,
+                    drift: w.a.drift,
+                    peak_nodes: w.a.peak_nodes,
+                    name: "A",
+                };
+                crate::c20::inject_all(&side, &mut env, &case.ops[..n])
+            }
             Post::C11 | Post::C12 => {
                 for which in 0..2 {
                     let models = [&w.a.model, &w.b.model];
